@@ -406,7 +406,8 @@ class Check:
                     "Lean 4.33.0 kernel",
                     "axioms allowed: propext, Classical.choice, Quot.sound (audited per theorem this run)",
                     "correspondence harness (generators, canonicalisation, line protocol, diff)",
-                    "table translator harness/translate.py",
+                    "table translator harness/translate.py (AST path: constexpr.py, rxscan.py; dynamic path: probe.py runs the "
+                    "package of the tree under test on fixed probe inputs at translate time)",
                 ] + list(getattr(mod, "TRUSTED", [])),
                 "theorems": info["theorems"],
                 "proof_problems": info["problems"],
